@@ -620,4 +620,8 @@ theorem run_vals_le (st : St) (ops : List Op) (h : HId) (a : Nat) (hi : HInv st)
         exact exec_loads_le _ ops _
       · exact ih _ i1 hm
 
+/-- an empty script does nothing -/
+theorem execOpsR_nil (S : Scripts) (fuel : Nat) (rs : RSt) : execOpsR S fuel rs [] = rs := by
+  cases fuel <;> simp [execOpsR]
+
 end Desper.Tree
